@@ -44,12 +44,47 @@ func run(in Sx) Sx {
 	t := trie.NewHashTrie()
 	obs := make([]Sx, 0, in.Len())
 	stuck := false
-	for _, o := range in.L {
+	// the decoy: another dictionary used in between (package-level state would show)
+	decoy := trie.NewHashTrie()
+	decoyWords := []string{"a", "ab", "*b", "世", "aa", "b*", "abc", "é", "*"}
+	stop := make(chan struct{})
+	if in.Len()%4 == 3 { // ... and concurrently, on a dictionary of its own
+		go func() {
+			d2 := trie.NewHashTrie()
+			for i := 0; ; i++ {
+				select {
+				case <-stop:
+					return
+				default:
+				}
+				w := decoyWords[i%len(decoyWords)]
+				d2.AddWord(w)
+				d2.Filter("xab世c" + w)
+				if i%3 == 0 {
+					d2.Remove(w)
+				}
+			}
+		}()
+	}
+	defer close(stop)
+	for k, o := range in.L {
 		var ob Sx
 		if stuck {
 			obs = append(obs, Ints(-8))
 			continue
 		}
+		Catch(func() {
+			w := decoyWords[k%len(decoyWords)]
+			switch k % 3 {
+			case 0:
+				decoy.AddWord(w)
+			case 1:
+				decoy.Remove(w)
+			default:
+				decoy.Filter("ab世*c" + w)
+				decoy.Contains(w + "b")
+			}
+		})
 		o := o
 		done := make(chan Sx, 1)
 		go func() { done <- runOp(t, o) }()
@@ -100,6 +135,11 @@ func runOp(t *trie.HashTrie, o Sx) (ob Sx) {
 				ob = List(Bool(t.Contains(s)), Bool(t.ExactMatch(s)), sxRunes([]rune(t.Filter(s))))
 			case 9:
 				ob = List(Bool(t.VerifHas(o.At(1).AsString())))
+			case 12:
+				_ = t.String()
+				ob = Ints(0)
+			case 13:
+				ob = Ints(int64(t.WordsCount()))
 			case 10:
 				t.AddWord(string(runesOf(o.At(1))))
 				ob = List()
@@ -365,6 +405,64 @@ func byteWord(rng *Rng, maxFrags int) string {
 	return s
 }
 
+// phases: fill the dictionary, drain it completely (count 0, every probe false, nothing
+// matches), refill it in another order, drain half; queries after every phase
+func genPhases(rng *Rng, out *Out, n int) {
+	for h := 0; h < n; h++ {
+		g := &gctx{rng: rng, alpha: []rune{'a', 'b', '世', star}, talph: []rune{'a', 'b', 'c', '世', star}}
+		if h%2 == 0 {
+			g.alpha = []rune{'a', 'b', '世'}
+		}
+		pool := g.pool(rng.Range(3, 9))
+		var ops []Sx
+		observe := func() {
+			ops = append(ops, List(Int(13)))
+			for _, w := range pool {
+				ops = append(ops, List(Int(4), sxRunes(w)))
+			}
+			for k := 0; k < 3; k++ {
+				ops = append(ops, List(Int(3), sxRunes(g.text(pool))))
+			}
+			ops = append(ops, List(Int(3), sxRunes(pool[rng.Intn(len(pool))])), List(Int(12)))
+		}
+		perm := func() []int {
+			p := make([]int, len(pool))
+			for i := range p {
+				p[i] = i
+			}
+			for i := len(p) - 1; i > 0; i-- {
+				j := rng.Intn(i + 1)
+				p[i], p[j] = p[j], p[i]
+			}
+			return p
+		}
+		code := func(c int) int64 {
+			if rng.Chance(1, 3) {
+				return int64(c + 10)
+			}
+			return int64(c)
+		}
+		for _, i := range perm() {
+			ops = append(ops, List(Int(code(0)), sxRunes(pool[i])))
+		}
+		observe()
+		for _, i := range perm() {
+			ops = append(ops, List(Int(code(1)), sxRunes(pool[i])))
+		}
+		observe()
+		for _, i := range perm() {
+			ops = append(ops, List(Int(code(0)), sxRunes(pool[i])))
+		}
+		observe()
+		for _, i := range perm()[:len(pool)/2] {
+			ops = append(ops, List(Int(code(1)), sxRunes(pool[i])))
+		}
+		observe()
+		in := ListOf(ops)
+		out.Case("phases", true, in, run(in))
+	}
+}
+
 func genBytes(rng *Rng, out *Out, n int) {
 	for h := 0; h < n; h++ {
 		var pool []string
@@ -436,7 +534,9 @@ func gen(a Args, out *Out) {
 		switch kind {
 		case "literal":
 			g.alpha, g.talph = lit, all
-			if rng.Chance(1, 8) { // runes that coincide when truncated to 8 or 16 bits
+			if rng.Chance(1, 10) { // the neighbours of '*' (41, 43) and rune 0
+				g.alpha, g.talph = []rune{')', '+', 'a', 0}, []rune{')', '+', 'a', 0, star}
+			} else if rng.Chance(1, 8) { // runes that coincide when truncated to 8 or 16 bits
 				g.alpha, g.talph = []rune{'a', 0x161, 0x10061, 0xF600, 0x1F600}, []rune{'a', 0x161, 0x10061, 0xF600, 0x1F600, 'b'}
 			} else if rng.Chance(1, 8) { // what invalid UTF-8 decodes to, and a rune outside the BMP
 				g.alpha, g.talph = []rune{'a', 0xFFFD, 0x1F600}, []rune{'a', 'b', star, 0xFFFD, 0x1F600}
@@ -478,6 +578,7 @@ func gen(a Args, out *Out) {
 			}
 		}
 		cur := map[string]bool{}
+		var texts [][]rune
 		quietMut := rng.Chance(1, 3) // mutators mostly without a WordsCount() call afterwards
 		mut := func(code int) int64 {
 			if quietMut && rng.Chance(3, 4) {
@@ -530,19 +631,34 @@ func gen(a Args, out *Out) {
 					probeAll()
 				}
 			case r < 90:
-				ops = append(ops, List(Int(3), sxRunes(g.text(pool))))
+				x := g.text(pool)
+				if len(texts) > 0 && rng.Bool() { // the same texts again and again, across mutations
+					x = texts[rng.Intn(len(texts))]
+				} else if len(texts) < 4 {
+					texts = append(texts, x)
+				}
+				ops = append(ops, List(Int(3), sxRunes(x)))
 				out.Count("op:query")
 				queries++
-			case r < 98:
+				switch rng.Intn(6) { // queries must leave the dictionary alone
+				case 0:
+					ops = append(ops, List(Int(3), sxRunes(x)), List(Int(13)))
+				case 1:
+					probeAll()
+				}
+			case r < 96:
 				ops = append(ops, List(Int(4), sxRunes(pool[rng.Intn(len(pool))])))
 				out.Count("op:probe")
-			case r < 99:
+			case r < 97:
+				ops = append(ops, List(Int(12)), List(Int(13)))
+				out.Count("op:string")
+			case r < 98:
 				ops = append(ops, List(Int(2)))
 				cur = map[string]bool{}
 				out.Count("op:reset")
-			default:
-				ops = append(ops, List(Int(0), sxRunes(nil))) // AddWord("")
-				out.Count("op:add-empty")
+			default: // the empty word: AddWord("") is ignored, Remove("") reports false, never a member
+				ops = append(ops, List(Int(int64(rng.PickInt(0, 0, 1, 4, 10, 11))), sxRunes(nil)))
+				out.Count("op:empty-word")
 			}
 		}
 		// every pool word is queried as a text and probed at the end
@@ -567,6 +683,7 @@ func gen(a Args, out *Out) {
 		nb = 1000
 	}
 	genBytes(rng, out, nb)
+	genPhases(rng, out, nb/2)
 	// Go-side exhaustive sweeps over small literal dictionaries
 	ws := allStrings([]rune{'a', 'b'}, 2)[1:] // a b aa ab ba bb
 	sweep(out, "sweep", ws, allStrings([]rune{'a', 'b', 'c'}, 5))
